@@ -22,6 +22,7 @@ class Trace:
         self.fin = []             # finalize observations
         self.outer = []           # (label, [(kind, names)])
         self.error = None
+        self.error_at = None      # number of events recorded when the scope error was raised
         self.unmodelled = []
         self.depth = 0
         self.global_scope = None
@@ -111,8 +112,9 @@ def recording(hy):
             try:
                 return orig(self, *a)
             except SyntaxError as e:
-                if ext:
+                if ext and t.error is None:
                     t.error = e.msg
+                    t.error_at = len(t.events)
                 raise
             finally:
                 if t:
@@ -181,8 +183,9 @@ def recording(hy):
             try:
                 return orig(self, node, root)
             except SyntaxError as e:
-                if ext:
+                if ext and t.error is None:
                     t.error = e.msg
+                    t.error_at = len(t.events)
                 raise
             finally:
                 if t:
@@ -463,6 +466,7 @@ Definition enc_event (e : event) : nat * nat * nat * list name :=
   | EExit => (1, 0, 0, [])
   | EAccess x => (2, 0, 0, [x])
   | EAssign x => (3, 0, 0, [x])
+  | EAssignSame => (10, 0, 0, [])
   | EAssignNode l x => (4, l, 0, [x])
   | EDefine x => (5, 0, 0, [x])
   | EDecl RGlobal names => (6, 0, 0, names)
@@ -471,7 +475,18 @@ Definition enc_event (e : event) : nat * nat * nat * list name :=
   | EIterator xs => (8, 0, 0, xs)
   | EFinalize => (9, 0, 0, [])
   end.
-Definition walk_events (fs : list form) := map enc_event (module_events hy_let_name fs).
+(* the walk's events with each EAssignSame resolved to the name the machine gives it *)
+Fixpoint expand (evs : list event) (st : state) : list event :=
+  match evs with
+  | [] => []
+  | e :: r =>
+      let e' := match e with
+                | EAssignSame => EAssign (name_of (st_cells st) (NR (length (st_cells st) - 1) 0))
+                | _ => e
+                end in
+      e' :: expand r (step (fun l => l) finalize_order st e)
+  end.
+Definition walk_events (fs : list form) := map enc_event (expand (module_events hy_let_name fs) init_state).
 Definition machine_vs_lex (fs : list form) :=
   let st := run (fun l => l) finalize_order (module_events hy_let_name fs) init_state in
   let lx := lex_module hy_let_name fs in
